@@ -109,20 +109,34 @@ Qed.
 Definition reply_of (results : list (str * deliver_result)) (r : str) : bool :=
   match results_get results r with Some D_err => false | _ => true end.
 
-Lemma reply_consistent (P : str -> bool) results :
+Lemma reply_truth (P : str -> bool) results :
   Forall (fun kv => result_ok (snd kv) = P (fst kv)) results ->
-  forall l, (forall kv, In kv l -> In kv results) ->
-  zip_outcomes (map (reply_of results) (map fst l)) l = map (fun kv => to_mo (snd kv)) l.
+  forall k res, In (k, res) results -> outcome_of (reply_of results k) res = to_mo res.
 Proof.
-  intros HF. rewrite Forall_forall in HF.
-  induction l as [|[k res] l IH]; intros Hin; [reflexivity|].
-  cbn [map fst snd zip_outcomes]. rewrite IH by (intros kv H; apply Hin; now right). f_equal.
+  intros HF k res Hin. rewrite Forall_forall in HF.
   assert (K : In k (map fst results)).
-  { apply in_map_iff. exists (k, res). split; [reflexivity | apply Hin; now left]. }
+  { apply in_map_iff. now exists (k, res). }
   unfold reply_of. destruct (results_get results k) as [v|] eqn:E; [|now apply results_get_some in K].
-  apply results_get_In in E. pose proof (HF _ E) as H1. pose proof (HF _ (Hin _ (or_introl eq_refl))) as H2.
+  apply results_get_In in E. pose proof (HF _ E) as H1. pose proof (HF _ Hin) as H2.
   cbn [fst snd] in H1, H2. rewrite <- H2 in H1.
   destruct v, res; cbn in *; try reflexivity; discriminate.
+Qed.
+
+(** replies against deliveries, recipients over quota skipped *)
+Lemma zip_weave (P : str -> bool) results over :
+  Forall (fun kv => result_ok (snd kv) = P (fst kv)) results ->
+  forall acc l, (forall kv, In kv l -> In kv results) ->
+  map fst l = filter (fun r => negb (over r)) acc ->
+  zip_outcomes (map over acc) (map (fun r => if over r then false else reply_of results r) acc) l
+    = weave over acc (map (fun kv => to_mo (snd kv)) l).
+Proof.
+  intros HF. induction acc as [|a acc IH]; intros l Hin Hk; [reflexivity|].
+  cbn [map filter zip_outcomes weave] in *.
+  destruct (over a) eqn:EO; cbn [negb] in *.
+  - f_equal. now apply IH.
+  - destruct l as [|[k res] l]; [discriminate|]. cbn [map fst snd] in *. injection Hk as -> Hk.
+    rewrite (reply_truth P results HF a res (Hin _ (or_introl eq_refl))). f_equal.
+    apply IH; [intros kv H; apply Hin; now right | exact Hk].
 Qed.
 
 (* ---- DATA phase ---- *)
@@ -131,13 +145,15 @@ Lemma map_erase_const {A} (w : reason) (l : list A) :
   map erase (map (fun _ => Refused w) l) = repeat MRefused (length l).
 Proof. induction l; cbn; [reflexivity | now f_equal]. Qed.
 
+Lemma over_quota_is_spec cfg d m r : over_quota cfg d m r = spec_over_quota cfg d m r.
+Proof. reflexivity. Qed.
+
 Lemma data_phase cfg d acc m :
   cfg_ok cfg -> wf_db d ->
-  (quota_enabled cfg = true -> existsb is_quota_refusal (fst (spec_data cfg d acc m)) = false) ->
   data_outcomes (length acc) (handle_data cfg d acc m) = map erase (fst (spec_data cfg d acc m)) /\
   do_db (handle_data cfg d acc m) = snd (spec_data cfg d acc m).
 Proof.
-  intros Hcfg Hwf HQ. unfold handle_data, spec_data in *.
+  intros Hcfg Hwf. unfold handle_data, spec_data in *.
   destruct acc as [|a acc'].
   { destruct (max_size cfg <? m_size m); [cbn; auto|]. destruct (negb (m_parse_ok m)); cbn; auto. }
   set (acc := a :: acc') in *.
@@ -145,13 +161,18 @@ Proof.
   { cbn [fst snd]. unfold data_outcomes. cbn [do_reply do_db]. now rewrite map_erase_const. }
   destruct (negb (m_parse_ok m)) eqn:EP.
   { cbn [fst snd]. unfold data_outcomes. cbn [do_reply do_db]. now rewrite map_erase_const. }
-  destruct (deliver_all cfg m acc d Hcfg Hwf HQ) as [D1 [D2 D3]].
-  pose proof (all_results m (default_folder cfg) acc d) as AR.
-  destruct (deliver_to_multiple d acc m (default_folder cfg)) as [results d'] eqn:ED.
-  cbn [fst snd] in *. unfold data_outcomes. cbn [do_reply do_deliveries do_db].
-  split; [|exact D3]. rewrite <- D1.
-  fold (reply_of results). rewrite <- D2 at 1.
-  apply (reply_consistent (deliv_ok m (default_folder cfg) d) results AR results). auto.
+  change (over_quota cfg d m) with (spec_over_quota cfg d m).
+  set (over := spec_over_quota cfg d m).
+  set (L := filter (fun r => negb (over r)) acc).
+  assert (HL : forall r, In r L -> over r = false).
+  { intros r H. apply filter_In in H as [_ H]. now apply negb_true_iff in H. }
+  destruct (deliver_all cfg m over L d Hcfg Hwf HL) as [D1 [D2 D3]].
+  destruct (spec_weave cfg m over acc d) as [W1 W2]. fold L in W1, W2.
+  pose proof (all_results m (default_folder cfg) L d) as AR.
+  destruct (deliver_to_multiple d L m (default_folder cfg)) as [results d'] eqn:ED.
+  cbn [fst snd] in *. unfold data_outcomes. cbn [do_reply do_deliveries do_over_quota do_db].
+  split; [|now rewrite D3, W2]. rewrite W1, <- D1.
+  apply (zip_weave (deliv_ok m (default_folder cfg) d) results over AR acc results); [auto | exact D2].
 Qed.
 
 (* ---- merging the two phases ---- *)
@@ -172,22 +193,18 @@ Qed.
 
 (** model = documented policy, for every configuration with a non-empty
     default folder, every well-formed user table, every list of recipient
-    addresses and every message, outside the three finding class *)
+    addresses and every message — no exception left *)
 Theorem policy_exact cfg d addrs m :
-  cfg_ok cfg -> wf_db d -> classify cfg d addrs m = None ->
+  cfg_ok cfg -> wf_db d ->
   txn_outcomes (run_txn_addr cfg d addrs m) = map erase (fst (spec_txn cfg d addrs m)) /\
   do_db (to_data (run_txn_addr cfg d addrs m)) = snd (spec_txn cfg d addrs m).
 Proof.
-  intros Hcfg Hwf HC. unfold classify in HC.
+  intros Hcfg Hwf.
   destruct (rcpt_phase cfg d addrs []) as [R1 R2]. cbn [length Z.of_nat app] in R1, R2.
   unfold run_txn_addr, spec_txn, txn_outcomes.
   destruct (handle_rcpts_addr cfg d [] addrs) as [rs recs] eqn:EH. cbn [fst snd] in R1, R2.
   fold (spec_accepted cfg d addrs) in R2. subst recs.
-  assert (HQ : quota_enabled cfg = true ->
-               existsb is_quota_refusal (fst (spec_data cfg d (spec_accepted cfg d addrs) m)) = false).
-  { intros E. rewrite E in HC. cbn [andb] in HC.
-    destruct (existsb is_quota_refusal (fst (spec_data cfg d (spec_accepted cfg d addrs) m))); [discriminate | reflexivity]. }
-  destruct (data_phase cfg d (spec_accepted cfg d addrs) m Hcfg Hwf HQ) as [P1 P2].
+  destruct (data_phase cfg d (spec_accepted cfg d addrs) m Hcfg Hwf) as [P1 P2].
   destruct (spec_data cfg d (spec_accepted cfg d addrs) m) as [os d'] eqn:ESD.
   cbn [fst snd to_rcpt to_accepted to_data] in *.
   split; [|exact P2]. rewrite P1. now apply merge_agree.
